@@ -16,7 +16,7 @@ func init() {
 		Run: c19,
 		Level: "Structural necessary conditions of 'no endpoint acts without credentials', decided exhaustively over the route table in the source: every Route literal of the repository is enumerated, its handler resolved and classified by signature (the 3-argument form is the only one AddRoutes wraps in authenticate); " +
 			"anonymous routes must be in the frozen allow-list; every authenticated handler must hand its user to an authorisation sink; the paths served outside the mux are a frozen set; every branch of authenticate that reports an error returns before the inner handler runs; statement kinds that change the catalogue require admin or write privileges. " +
-			"NOT decided: credential parsing and password checks, grant/revoke semantics, what the authorisation sinks compute.",
+			"statement authorisation tests every required privilege of every statement or refuses the request; the write authoriser resolves the user afresh on every call and authorisers keep no state; NOT decided: credential parsing and password checks, grant/revoke semantics, what the authorisation sinks compute.",
 		Assumptions: commonAssumptions,
 		Technique:   "static analysis: exhaustive enumeration of typed composite literals (route table), signature classification, parameter-use dataflow to authorisation sinks, branch-returns contracts",
 		Rules:       "C19.R1 R2 R3 R4 R5 R6 R7 R8",
